@@ -121,6 +121,25 @@ ROUND8 = {
     'C18': " Round 8: every ending after START emits a terminal event, also KeyboardInterrupt / SystemExit in the init and setup stages; each START draws a run id of its own; the facet key normaliser cannot produce a reserved name.",
 }
 
+# obligations added in round 9
+ROUND9 = {
+    'C01': " Round 9: a source's CLOSE drops the half received set it leaves behind (share of C02.R13).",
+    'C02': " Round 9: every message handed to a ZeroMQ socket is copied by the call; a source's CLOSE drops the half received set it leaves behind, for synchronized sources too.",
+    'C03': " Round 9: a required output's CLOSE withdraws the send permission however that output is attached; the burst of one frame set is related to the bound of the PUB queue (known finding D75).",
+    'C04': " Round 9: unique connection ids come from a source that differs between processes forked from one parent; a balanced join's request is not a permission for every worker at once (known finding D74).",
+    'C05': " Round 9: PUB sockets are closed with a finite linger (a stalled listener cannot keep the publisher from shutting down).",
+    'C06': " Round 9: the id learned from a downstream request reaches the relay's own receiver on every return of MQ.send (share of C02.R7); required ids and connected ids are compared as text.",
+    'C08': " Round 9: a shutdown() that raises makes the run an error run whatever ended the loop (two-fault scenarios); the exit kind comes from the exception that passed through, not from sys.exc_info() in a finally; the send wait reads the source sockets (known finding D73).",
+    'C09': " Round 9: the receiver's topic decoding is the inverse of the publisher's framing (share of C02.R5).",
+    'C12': " Round 9: generated ids are tried against the set of ids that are taken (user-given and generated); user-given ipc outputs feed the set allocated ipc names are looked up in.",
+    'C13': " Round 9: a directory listing is bounded by the newest file of an earlier listing; a file name is used once also across a writer restart (known finding D69).",
+    'C14': " Round 9: share of the listing obligation of C13.R8.",
+    'C15': " Round 9: a mask match cannot swallow the scheme of the next URI of a list; cli/common.py is in scope (the FilterConfig records built from the command line are sources); vidgear's writegear and helper loggers are quiet while WriteGear() is constructed.",
+    'C16': " Round 9: histogram bounds / counts are recognised by the end of the flattened key; the heartbeat facet is emptied at the start of every run; a null 'safe_metrics' or an empty allow-list file is the empty list.",
+    'C17': " Round 9: the video reader's aspect-keeping resize touches the box on its limiting side (exact, no rounded-down float product); a source's own options win over the filter-wide ones.",
+    'C18': " Round 9: the run id comes from a source that differs between forked filter processes; nothing of run() can fail between the construction of the filter and init().",
+}
+
 NOT_APPLICABLE = {
     'C11': 'Every clause is an equality between values computed by string parsing over an unbounded grammar; there is no renderer to pair with the parsers and the only structural facts in reach are already caught by the existing test_normalize_config tests, so a static proxy would detect nothing new (DESIGN.md §5).',
 }
@@ -135,7 +154,7 @@ def main():
         if pid not in reg:
             continue
         tech, text, ref, nd = CLAIMS[pid]
-        text += ROUND6.get(pid, '') + ROUND7.get(pid, '') + ROUND8.get(pid, '')
+        text += ROUND6.get(pid, '') + ROUND7.get(pid, '') + ROUND8.get(pid, '') + ROUND9.get(pid, '')
         checks.append({
             'property_id': pid,
             'quick_cmd': f'./check {pid} --tier quick',
